@@ -91,7 +91,7 @@ func main() {
 			for _, k := range []string{"agree.raw", "agree.client", "agree.bits_set", "agree.banned_slots", "agree.servers_in_reply", "agree.migration_in_reply",
 				"refusal.raw", "refusal.client", "agree.burst", "agree.client_relayed", "rejected.large_list_tail", "race.cells", "multibyte.accepted.255_bytes", "rejected.twin_signature", "rejected.time_far_resigned", "recovery.single_server", "recovery.three_servers", "stale_round.judged", "stale_round.unchanged", "rotation.injected_at.sync.ready", "rotation.injected_at.sync.afterCopy", "rotation.under_load", "rotation.reply_is_state_before", "rotation.reply_is_state_after", "tamper.bitflip", "tamper.truncate", "tamper.extend_adjusted", "tamper.resign_otherkey",
 				"accepted.time_within", "rejected.time_outside", "rejected.devkey", "rejected.entry_sig", "rejected.mig_outer", "rejected.mig_inner",
-				"fullround.rejected_unchanged", "fullround.accepted", "states.offset_0", "states.offset_2016", "states.offset_4032"} {
+				"fulllist.runs", "fulllist.judged_near_limit", "fullround.rejected_unchanged", "fullround.accepted", "states.offset_0", "states.offset_2016", "states.offset_4032"} {
 				c.Require(k, 1)
 			}
 		},
@@ -119,6 +119,13 @@ func plan(tier string, seed int64) []run.Batch {
 				"of":    fmt.Sprint(slices),
 			}})
 		}
+	}
+	nFull := 3
+	if tier == "thorough" {
+		nFull = 12
+	}
+	for i := 0; i < nFull; i++ {
+		bs = append(bs, run.Batch{Kind: "fulllist", Seed: seed*100003 + 80000 + int64(i), N: 1, TimeoutS: 115})
 	}
 	nRace := 1
 	if tier == "thorough" {
@@ -2272,6 +2279,10 @@ func (s *st) fullRounds(dir string, sample []variant, offset uint32) {
 func child(b run.Batch, r *ev.Result) {
 	if b.Kind == "race" {
 		raceChild(b, r)
+		return
+	}
+	if b.Kind == "fulllist" {
+		fullListChild(b, r)
 		return
 	}
 	rng := rand.New(rand.NewSource(b.Seed))
